@@ -98,6 +98,8 @@ CONSTRUCTORS = {
         'segments_count_of_parent_stream': 'segments_count_of_parent_stream',
         'message_expiry': 'message_expiry',
         'consumer_offsets': 'DashMap::new()', 'consumer_group_offsets': 'DashMap::new()', 'segments': 'Vec::new()',
+        # deduplication: capacity and time-to-live of the id cache are the configured ones (None = unbounded / no expiry), whatever the topic's settings
+        'message_deduplicator': 'phi{MessageDeduplicator::new(phi{Option::None{} | config.message_deduplication.max_entries}, phi{Option::None{} | config.message_deduplication.expiry}) | Option::None{}}',
     }},
     TOPIC + '::create': {TOPIC: {
         'stream_id': 'stream_id', 'topic_id': 'topic_id', 'name': '::to_string(name)',
@@ -176,3 +178,55 @@ def settings_passthrough(ctx, rep, rid, settings):
                 rep.ob(rid, caller, '%s(%s = %s)' % (c.name.split('::')[-1], p, form), ok, c.where(), None if ok else
                        '`%s` handed to %s is `%s`: not the caller\'s own %s (parameter or field of that name of the entity at hand, possibly resolved by Topic::get_%s)' % (p, c.name, form, p, p))
     return n
+
+
+# ---------------------------------------------------------------------------------------------------------------------
+# lifecycle steps: the collaborators every storage lifecycle function calls (confirmed by reading).  "Must contain":
+# further calls are fine, a confirmed one that disappears is a dropped step.  Calls are counted in the function, its
+# closures and the helpers the look-through splices in.
+_SEGS = 'server::streaming::segments::'
+_PS = '<server::streaming::partitions::storage::FilePartitionStorage as server::streaming::storage::PartitionStorage>::'
+_TS = '<server::streaming::topics::storage::FileTopicStorage as server::streaming::storage::TopicStorage>::'
+_SS = '<server::streaming::streams::storage::FileStreamStorage as server::streaming::storage::StreamStorage>::'
+_SYS = 'server::streaming::systems::system::System::'
+LIFECYCLE = {
+    SEG + '::load_from_disk': ['Segment::initialize_writing', 'Segment::initialize_reading', 'SegmentIndexReader::load_all_indexes_impl', 'SegmentLogReader::batch_end_position'],
+    SEG + '::persist': ['Segment::initialize_writing', 'Segment::initialize_reading'],
+    SEG + '::initialize_writing': ['SegmentIndexWriter::new', 'SegmentLogWriter::new'],
+    SEG + '::initialize_reading': ['SegmentIndexReader::new', 'SegmentLogReader::new'],
+    SEG + '::delete': ['Segment::shutdown_reading', 'Segment::shutdown_writing'],
+    SEG + '::shutdown_writing': ['SegmentIndexWriter::fsync', 'SegmentLogWriter::fsync', 'SegmentLogWriter::shutdown_persister_task'],
+    SEG + '::persist_messages': ['BatchAccumulator::materialize_batch_and_update_state', 'SegmentLogWriter::save_batches', 'SegmentIndexWriter::save_index',
+                                 'Segment::store_offset_and_timestamp_index_for_batch', 'Segment::shutdown_writing'],
+    SEG + '::append_batch': ['BatchAccumulator::append'],
+    _PS + 'load': ['Partition::load_consumer_offsets', 'Segment::create', 'Segment::load_from_disk', 'Segment::load_message_ids', 'IndexRebuilder::rebuild'],
+    _PS + 'save': ['Segment::persist'],
+    _PS + 'delete': ['PartitionStorage>::delete_consumer_offsets'],
+    _TS + 'load': ['Partition::create', 'Partition::load', 'Partition::persist', 'ConsumerGroup::new', 'Topic::load_messages_from_disk_to_cache'],
+    _TS + 'save': ['Partition::persist'],
+    _SS + 'load': ['Topic::empty', 'Topic::load', 'Topic::persist'],
+    _SYS + 'init': ['StateKind::init', 'SystemState::init', 'System::load_streams', 'System::load_users', 'System::load_version'],
+    _SYS + 'shutdown': ['System::persist_messages'],
+    _SYS + 'load_streams': ['Stream::empty', 'Stream::load', 'Stream::create', 'Stream::persist'],
+    PART + '::add_persisted_segment': ['Segment::create', 'Segment::persist'],
+}
+
+
+def lifecycle_steps(ctx, rep, rid, only=None):
+    from lib import is_user_call
+    for fn, want in LIFECYCLE.items():
+        if only is not None and not any(fn.endswith(o) for o in only):
+            continue
+        if not ctx.has(fn):
+            rep.anchor_lost(rid, fn)
+            continue
+        names = set()
+        for d in ctx.facts.body_defs():
+            if (d == fn or d.startswith(fn + '::{closure')) and '__CALLSITE' not in d:
+                for c in ctx.body(d).calls:
+                    if is_user_call(c):
+                        names.add(c.name)
+        for w in want:
+            ok = any(n.endswith('::' + w) or n.endswith(w) for n in names)
+            rep.ob(rid, fn, 'calls ' + w, ok, None, None if ok else
+                   '%s no longer calls %s: a step of the storage lifecycle was dropped (the effect shows at the next restart, purge or close)' % (fn.split('::')[-1], w))
